@@ -178,7 +178,7 @@ def run(tier):
     elif not res.ok:
         raise C.Machinery('TLC failed on Grid: ' + res.out[-1500:])
     rnd = C.rng('c16')
-    jobs = ((r, rnd.random() < (0.05 if tier == 'quick' else 0.15)) for r in res.printed())
+    jobs = ((r, C.pick(r['ax'], 0.05 if tier == 'quick' else 0.15, 'c16-main')) for r in res.printed())
     nrec = 0
     for (rec, um), o in C.parallel_imap(check_record, jobs, chunksize=16):
         nrec += 1
